@@ -1,4 +1,4 @@
 (* the writer pool of the harness (harness/tree.go): ids 1..6 *)
 Require Import Verif.Model.Base.
-Definition is_lw (w : Z) : bool := (w =? 3) || (w =? 4) || (w =? 6).   (* LogWriter (has Close) *)
+Definition is_lw (w : Z) : bool := (w =? 3) || (w =? 4) || (w =? 6) || (w =? 7).   (* LogWriter (has Close); 7 = a handle made by slog.NewLogWriter *)
 Definition is_ls (w : Z) : bool := (w =? 5) || (w =? 6).               (* LevelSettable *)
